@@ -213,6 +213,45 @@ fn resolve(t: &Tree, p: &str) -> Option<String> {
     Some(parts.join("/"))
 }
 
+/// like `resolve`, for the TARGET of cp / mv: a `..` may also step back out of a directory that does not exist yet
+/// (the command creates missing parent directories of the target before it looks at the target itself); returns the
+/// canonical path and the directories that this would create
+fn resolve_creating(t: &Tree, p: &str) -> Option<(String, Vec<String>)> {
+    let mut parts: Vec<&str> = vec![];
+    let mut created: Vec<String> = vec![];
+    for c in p.split('/') {
+        match c {
+            "" | "." => {}
+            ".." => {
+                let cur = parts.join("/");
+                if parts.len() <= 1 {
+                    return None;
+                }
+                match t.get(&cur) {
+                    Some(Node::Dir) => {}
+                    Some(Node::File(_)) => return None,
+                    None => {
+                        if blocked(t, &cur) {
+                            return None;
+                        }
+                        let mut a = cur.clone();
+                        while !t.contains_key(&a) && !created.contains(&a) {
+                            created.push(a.clone());
+                            match parent(&a) {
+                                Some(pp) => a = pp,
+                                None => break,
+                            }
+                        }
+                    }
+                }
+                parts.pop();
+            }
+            x => parts.push(x),
+        }
+    }
+    Some((parts.join("/"), created))
+}
+
 fn paths_of(op: &Op) -> Vec<String> {
     match op {
         Op::Write(p, _) | Op::Append(p, _) | Op::Read(p) | Op::Touch(p) | Op::Rm(p, _) | Op::Exists(p) | Op::IsFile(p) | Op::IsDir(p) | Op::Size(p) | Op::Mkdir(p) | Op::Rmdir(p) | Op::ReadBin(p) | Op::WriteBin(p, _) => vec![p.clone()],
@@ -302,10 +341,22 @@ fn run_case(case: &Case) -> Verdict {
         let spelled = paths_of(op);
         let mut canonical: Vec<String> = vec![];
         let mut unresolved = false;
-        for p in &spelled {
+        // directories that the spelling of a cp / mv target makes the command create on its way (`newdir/../f.txt`)
+        let mut created_on_the_way: Vec<String> = vec![];
+        for (j, p) in spelled.iter().enumerate() {
             match resolve(&t, p) {
                 Some(c) => canonical.push(c),
-                None => unresolved = true,
+                None => {
+                    let target_of_cp_mv = j == 1 && matches!(op, Op::Cp(_, _) | Op::Mv(_, _));
+                    match resolve_creating(&t, p) {
+                        Some((c, made)) if target_of_cp_mv && !too_long(p) => {
+                            canonical.push(c);
+                            created_on_the_way = made;
+                            sim::with_core(|c| c.probe("target-spelled-through-a-directory-that-does-not-exist-yet"));
+                        }
+                        _ => unresolved = true,
+                    }
+                }
             }
         }
         world.arg_rewrite.clear();
@@ -731,6 +782,11 @@ fn run_case(case: &Case) -> Verdict {
         }
         if torn_here.is_some() {
             set_fsize_limit(None);
+        }
+        // whether those directories were made (the command may have failed before or after making them) is left open;
+        // the files themselves are compared strictly
+        for d in &created_on_the_way {
+            resync.push(d.clone());
         }
         for p in paths_of(op) {
             if too_long(&p) {
